@@ -12,6 +12,7 @@ mod gen;
 mod langs;
 mod small;
 mod lintmon;
+mod lsexport;
 mod sup;
 mod sweep;
 mod tokmon;
@@ -57,6 +58,7 @@ fn dispatch(prop: &str, ctx: &mut Ctx) {
         "C15" => c15::worker(ctx),
         "C16" => c16::worker(ctx),
         "wasmapi" => wasmapi::worker(ctx),
+        "lsexport" => lsexport::run(ctx),
         "cli" => wasmapi::cli_worker(ctx),
         "C19" => c19::worker(ctx),
         "C03x" => small::c03x(ctx),
